@@ -61,9 +61,10 @@ structure Pool where
   att : List Att         -- connect() calls of the current filler that have not returned
   rest : Nat             -- connects the filler starts once the synchronous one returned nil
   opened : Nat           -- ghost: sockets dialled for this pool and not closed by the driver
+  pend : Nat             -- fill() calls that passed the read-locked check and have not taken the write lock yet
 deriving DecidableEq, Repr
 
-def Pool.new : Pool := { conns := [], filling := false, closed := false, att := [], rest := 0, opened := 0 }
+def Pool.new : Pool := { conns := [], filling := false, closed := false, att := [], rest := 0, opened := 0, pend := 0 }
 
 /-- find an attempt by id; returns it and the list without it -/
 def takeAtt : List Att → Nat → Option (Att × List Att)
@@ -78,13 +79,36 @@ def mkAtts (nextId : Nat) : Nat → List Att
   | 0 => []
   | n + 1 => { id := nextId, stage := .dial, sync := false } :: mkAtts (nextId + 1) n
 
-/-- hostConnPool.fill(): returns the pool and the number of dials it started -/
-def Pool.fill (size : Nat) (p : Pool) (nextId : Nat) : Pool × Nat :=
-  if p.closed || p.filling || size ≤ p.conns.length then (p, 0)
-  else if p.conns.length = 0 then
+/-- fill() past its checks: `filling = true`, the first connect synchronously when the pool is empty, the rest
+    (or all) through connectMany -/
+def Pool.startFill (size : Nat) (p : Pool) (nextId : Nat) : Pool × Nat :=
+  if p.conns.length = 0 then
     ({ p with filling := true, att := { id := nextId, stage := .dial, sync := true } :: p.att, rest := size - 1 }, 1)
   else
     ({ p with filling := true, att := mkAtts nextId (size - p.conns.length) ++ p.att, rest := 0 }, size - p.conns.length)
+
+/-- hostConnPool.fill() with both of its checks passing back to back: returns the pool and the number of dials
+    it started -/
+def Pool.fill (size : Nat) (p : Pool) (nextId : Nat) : Pool × Nat :=
+  if p.closed || p.filling || size ≤ p.conns.length then (p, 0)
+  else Pool.startFill size p nextId
+
+/-- fill(), first half: under the read lock `closed || filling` and `fillCount <= 0` are looked at; the lock is
+    released — any number of fill() calls may stand here at once -/
+def Pool.fillCheck (size : Nat) (p : Pool) : Pool :=
+  if p.closed || p.filling || size ≤ p.conns.length then p else { p with pend := p.pend + 1 }
+
+/-- fill(), second half: under the write lock everything is checked AGAIN ("looks like another goroutine already
+    beat this goroutine to the filling") before `filling = true` -/
+def Pool.fillGo (size : Nat) (p : Pool) (nextId : Nat) : Option (Pool × Nat) :=
+  if p.pend = 0 then none else some (Pool.fill size { p with pend := p.pend - 1 } nextId)
+
+/-- the variant whose second check forgets `filling` -/
+def Pool.fillGoNoRecheck (size : Nat) (p : Pool) (nextId : Nat) : Option (Pool × Nat) :=
+  if p.pend = 0 then none
+  else
+    let q := { p with pend := p.pend - 1 }
+    if q.closed || size ≤ q.conns.length then some (q, 0) else some (Pool.startFill size q nextId)
 
 /-- the step attempt k waits for is answered regularly -/
 def Pool.ok (c : Cfg) (p : Pool) (k : Nat) (nextId : Nat) : Option (Pool × Nat) :=
@@ -136,6 +160,8 @@ inductive Act where
   | stop                      -- some filler whose connects have all returned runs fillingStopped()
   | err (k : Nat)
   | pick                      -- hostConnPool.Pick on the registered pool: `go pool.fill()`
+  | fillCheck                 -- a fill() of the registered pool passes its read-locked check (several may)
+  | fillGo                    -- a fill() that passed the first check takes the write lock and checks again
   | up                        -- policyConnPool.addHost: new pool if none is registered; pool.fill()
   | down                      -- policyConnPool.removeHost / SetHosts: unregister, `go pool.Close()`
   | pclose                    -- hostConnPool.Close() of the registered pool (it stays registered)
@@ -156,7 +182,7 @@ def firstOk (f : Pool → Option (Pool × Nat)) : List Pool → Option (List Poo
 /-- NewSession returned: the pool holds the first connection (attempt 1) and its filler is dialling size-1 more -/
 def Host.init (c : Cfg) : Host :=
   { cfg := c,
-    cur := some { conns := [1], filling := true, closed := false, att := mkAtts 2 (c.size - 1), rest := 0, opened := 1 },
+    cur := some { conns := [1], filling := true, closed := false, att := mkAtts 2 (c.size - 1), rest := 0, opened := 1, pend := 0 },
     old := [], nextId := 2 + (c.size - 1), sessClosed := false }
 
 def Host.routeOld (h : Host) (f : Pool → Option (Pool × Nat)) : Option Host :=
@@ -184,6 +210,10 @@ def Host.step (h : Host) : Act → Option Host
   | .stop => h.route (fun p => p.stop.map (·, 0))
   | .err k => h.route (fun p => Pool.connError h.cfg.size p k h.nextId)
   | .pick => some h.fillCur
+  | .fillCheck => match h.cur with
+      | some p => some { h with cur := some (Pool.fillCheck h.cfg.size p) }
+      | none => some h
+  | .fillGo => h.route (fun p => Pool.fillGo h.cfg.size p h.nextId)
   | .up =>
       if h.sessClosed then none
       else match h.cur with
@@ -232,6 +262,17 @@ def Pool.okEarly (c : Cfg) (p : Pool) (k : Nat) (nextId : Nat) : Option (Pool ×
       let p1 : Pool := { p with att := l, conns := p.conns ++ [k] }      -- appended without looking at `closed`
       if a.sync then some ({ p1 with att := mkAtts nextId p.rest ++ l, rest := 0 }, p.rest)
       else some (p1, 0)
+
+/-- the variant of the host machine whose fill() does not look at `filling` again under the write lock -/
+def Host.stepNoRecheck (h : Host) : Act → Option Host
+  | .fillGo => h.route (fun p => Pool.fillGoNoRecheck h.cfg.size p h.nextId)
+  | a => h.step a
+
+def Host.runNoRecheck : Host → List Act → Option Host
+  | h, [] => some h
+  | h, a :: as => match h.stepNoRecheck a with
+    | some h' => Host.runNoRecheck h' as
+    | none => none
 
 def Host.stepEarly (h : Host) : Act → Option Host
   | .ok k => h.route (fun p => Pool.okEarly h.cfg p k h.nextId)
